@@ -47,6 +47,7 @@ type schemaField struct {
 	NoLog    bool   `json:"nolog"`
 	T        *tdesc `json:"t"`
 	Def      *defv  `json:"def"`
+	Label    string `json:"label"` // go.label annotation when non-empty, else the Thrift name
 }
 
 // defv: a declared default as a literal (K: bool int double string other).
@@ -107,6 +108,7 @@ type field struct {
 	NoLog    bool   ` + "`json:\"nolog\"`" + `
 	T        *tdesc ` + "`json:\"t\"`" + `
 	Def      *defv  ` + "`json:\"def\"`" + `
+	Label    string ` + "`json:\"label\"`" + `
 }
 type defv struct {
 	K string ` + "`json:\"k\"`" + `
@@ -208,6 +210,13 @@ type strct struct {
 
 func has(a compile.Annotations, k string) bool { _, ok := a[k]; return ok }
 
+func label(fl *compile.FieldSpec) string {
+	if v := fl.Annotations["go.label"]; len(v) > 0 {
+		return v
+	}
+	return fl.Name
+}
+
 func main() {
 	out := map[string][]strct{}
 	tds := map[string][]tdef{}
@@ -237,7 +246,7 @@ func main() {
 				st.Kind = "union"
 			}
 			for _, fl := range s.Fields {
-				st.Fields = append(st.Fields, field{ID: int(fl.ID), Name: fl.Name, Required: fl.Required, Code: int(fl.Type.TypeCode()), Default: fl.Default != nil, Redact: has(fl.Annotations, "go.redact"), NoLog: has(fl.Annotations, "go.nolog"), T: desc(fl.Type), Def: defOf(fl.Default, fl.Type)})
+				st.Fields = append(st.Fields, field{ID: int(fl.ID), Name: fl.Name, Required: fl.Required, Code: int(fl.Type.TypeCode()), Default: fl.Default != nil, Redact: has(fl.Annotations, "go.redact"), NoLog: has(fl.Annotations, "go.nolog"), T: desc(fl.Type), Def: defOf(fl.Default, fl.Type), Label: label(fl)})
 			}
 			out[base] = append(out[base], st)
 		}
@@ -893,7 +902,17 @@ func (ii *InstInfo) addRedactionContracts(p *Program, cs *ContractSet, prop stri
 				ii.skipped = append(ii.skipped, fmt.Sprintf("%s.%s: redacted field of kind %s cannot be named as a secret location", named.Obj().Name(), gf.Name(), gf.Type()))
 			}
 		}
-		if len(ct.Secrets) == 0 {
+		// "every other set field does appear, under its label": when every visible
+		// (neither redacted nor no-log) field is a scalar or string, the encoder log
+		// after MarshalLogObject is exactly the fold over the fields in declaration
+		// order: visible set fields under their Thrift name with their value,
+		// redacted set fields under their name with "<redacted>", no-log fields absent.
+		if f.Name() == "MarshalLogObject" && len(f.Params) > 1 {
+			if logx := ii.zapFold(fields, stt, recv, f.Params[1].Name()); logx != "" {
+				ct.Ensures = append(ct.Ensures, cl("ensures", "log", fmt.Sprintf("%s != nil ==> zlog(%s) == %s", recv, f.Params[1].Name(), logx)))
+			}
+		}
+		if len(ct.Secrets) == 0 && len(ct.Ensures) == 0 {
 			continue
 		}
 		// separation: a secret pointee / backing array is not shared with another field of the value
@@ -1006,4 +1025,76 @@ func goWireCode(t types.Type) int {
 		}
 	}
 	return 0
+}
+
+// zapFold: the expected encoder log as a nested term ("" when a visible field is not a scalar).
+func (ii *InstInfo) zapFold(fields []schemaField, stt *types.Struct, recv, enc string) string {
+	log := fmt.Sprintf("old(zlog(%s))", enc)
+	for i, fl := range fields {
+		if fl.NoLog {
+			continue
+		}
+		gf := stt.Field(i)
+		loc := recv + "." + gf.Name()
+		t := gf.Type()
+		opt := false
+		if pt, ok := t.Underlying().(*types.Pointer); ok {
+			if _, isStruct := pt.Elem().Underlying().(*types.Struct); !isStruct {
+				opt = true
+				t = pt.Elem()
+			}
+		}
+		key := fl.Label
+		if key == "" {
+			key = fl.Name
+		}
+		for _, c := range key {
+			if c < 32 || c > 126 || c == '"' || c == '\\' {
+				return ""
+			}
+		}
+		var add string
+		if fl.Redact {
+			switch gf.Type().Underlying().(type) {
+			case *types.Pointer, *types.Slice, *types.Map:
+				opt = true
+			}
+			add = fmt.Sprintf("zapAddStr(%s, \"%s\", \"<redacted>\")", log, key)
+		} else {
+			if fl.T == nil {
+				return ""
+			}
+			val := loc
+			if opt {
+				val = "(*" + loc + ")"
+			}
+			if _, named := t.(*types.Named); named {
+				return "" // typedefs / enums log through their own marshalers
+			}
+			switch fl.T.K {
+			case "bool":
+				add = fmt.Sprintf("zapAddBool(%s, \"%s\", %s)", log, key, val)
+			case "i8":
+				add = fmt.Sprintf("zapAddI8(%s, \"%s\", %s)", log, key, val)
+			case "i16":
+				add = fmt.Sprintf("zapAddI16(%s, \"%s\", %s)", log, key, val)
+			case "i32":
+				add = fmt.Sprintf("zapAddI32(%s, \"%s\", %s)", log, key, val)
+			case "i64":
+				add = fmt.Sprintf("zapAddI64(%s, \"%s\", %s)", log, key, val)
+			case "double":
+				add = fmt.Sprintf("zapAddF64(%s, \"%s\", bits(%s))", log, key, val)
+			case "string":
+				add = fmt.Sprintf("zapAddStr(%s, \"%s\", %s)", log, key, val)
+			default:
+				return ""
+			}
+		}
+		if opt {
+			log = fmt.Sprintf("ite(%s != nil, %s, %s)", loc, add, log)
+		} else {
+			log = add
+		}
+	}
+	return log
 }
